@@ -911,6 +911,181 @@ func TestVerifC29(t *testing.T) {
 			}
 		}
 	}
+
+	// ---- reload histories: 2-3 table loads through the module's reload handler, the data
+	// file's Version {bumped, unchanged, empty} x content {neither, A, B, both, unloadable file};
+	// connections from A and B judged against the table of the LAST SUCCESSFUL reload.
+	nHist := c29reloadHistories(t, r, e, &idx, reported, condClaimed, condTrusted, claimedSet, &panics)
+	r.Set("reload_histories", nHist)
 	r.Set("panics", panics)
 	r.Set("distinct_backends_picked", len(backendsSeen))
+}
+
+// one load of a reload history
+type c29load struct {
+	content int // index into c29histContents
+	version int // 0 bumped, 1 unchanged (same string as the previous file), 2 empty
+}
+
+var c29histContents = []struct {
+	name   string
+	ranges [][2]string
+	bad    bool // the file cannot be loaded (illegal address): the handler must fail, old table stays
+}{
+	{name: "neither", ranges: [][2]string{{"10.0.1.0", "10.0.1.255"}}},
+	{name: "A", ranges: [][2]string{{"10.0.0.5", "10.0.0.5"}}},
+	{name: "B", ranges: [][2]string{{"2001:db8::4", "2001:db8::6"}}},
+	{name: "A+B", ranges: [][2]string{{"10.0.0.4", "10.0.0.8"}, {"2001:db8::5", "2001:db8::5"}}},
+	{name: "unloadable", ranges: [][2]string{{"10.0.0.5", "10.0.0.5"}, {"2001:db8::5", "not-an-address"}}, bad: true},
+}
+
+var c29versionKinds = []string{"version-bumped", "version-unchanged", "version-empty"}
+
+func c29reloadHistories(t *testing.T, r *vk.Run, e *c29env, idx *int, reported map[string]bool,
+	condClaimed []condition.Condition, condTrusted condition.Condition, claimedSet *c29table, panics *int) int {
+	peers := []*c29peer{
+		{name: "A=10.0.0.5", ip: c29v4("10.0.0.5"), port: 40000, fam: "v4"},
+		{name: "B=2001:db8::5", ip: c29v16("2001:db8::5"), port: 40000, fam: "v6"},
+	}
+	none := c29hdr{c29xri(false)[0], c29xrp(false)[0], c29xff(false)[0], c29xfp(false)[0], c29extra(false)[0]}
+	hdrs := []c29hdr{
+		{c29xri(false)[1], c29xrp(false)[1], c29xff(false)[0], c29xfp(false)[0], c29extra(false)[0]}, // X-Real-Ip + X-Real-Port
+		{c29xri(false)[0], c29xrp(false)[0], c29xff(false)[2], c29xfp(false)[1], c29extra(false)[0]}, // X-Forwarded-For (2 hops) + X-Forwarded-Port
+	}
+	sh, _ := r.Shard()
+	file := filepath.Join(e.root, fmt.Sprintf("mod_trust_clientip/history_%d.data", sh))
+	load := func(ranges [][2]string, version string) error {
+		tb := &c29table{name: version, ranges: ranges}
+		c29write(t, file, tb.json())
+		return e.reload(url.Values{"path": {file}})
+	}
+	conds := make([]*c29conds, len(peers))
+	baseline := make([]string, len(peers))
+	if err := load(nil, "history-baseline"); err != nil {
+		t.Fatalf("C29 harness: baseline load: %v", err)
+	}
+	for i, p := range peers {
+		ipS := p.ip.String()
+		conds[i] = &c29conds{peer: c29mustCond(t, fmt.Sprintf("req_cip_range(%q, %q)", ipS, ipS)), claimed: condClaimed, trusted: condTrusted}
+		obs, err := c29run(e, p, [][]byte{none.raw()}, conds[i])
+		if err != nil {
+			t.Fatalf("C29 harness: history baseline %s: %v", p.name, err)
+		}
+		baseline[i] = obs[0].backend
+	}
+
+	// all histories: first load {bumped, empty} x 4 loadable contents, later loads x 5 contents x 3 version kinds
+	var hists [][]c29load
+	var rec func(h []c29load, n int)
+	rec = func(h []c29load, n int) {
+		if len(h) == n {
+			hists = append(hists, append([]c29load(nil), h...))
+			return
+		}
+		for c := range c29histContents {
+			for v := range c29versionKinds {
+				if len(h) == 0 && (c29histContents[c].bad || v == 1) {
+					continue
+				}
+				rec(append(h, c29load{c, v}), n)
+			}
+		}
+	}
+	rec(nil, 2)
+	rec(nil, 3)
+
+	for _, h := range hists {
+		*idx++
+		if !r.Mine(*idx) {
+			continue
+		}
+		if r.Expired("reload histories") {
+			break
+		}
+		id := "reload"
+		for _, l := range h {
+			id += "|" + c29histContents[l.content].name + "/" + c29versionKinds[l.version]
+		}
+		if !r.Case(id) {
+			continue
+		}
+		r.Nontrivial(id)
+		// every history starts from an empty table under a version no history uses
+		if err := load(nil, "reset:"+id); err != nil {
+			t.Fatalf("C29 harness: reset load: %v", err)
+		}
+		model := &c29table{name: "reset"}
+		prevVersion := "reset:" + id
+		for li, l := range h {
+			c := c29histContents[l.content]
+			version := ""
+			switch l.version {
+			case 0:
+				version = fmt.Sprintf("v%d:%s", li+1, id) // never used before on this module
+			case 1:
+				version = prevVersion
+			}
+			prevVersion = version
+			before := model
+			err := load(c.ranges, version)
+			switch {
+			case err != nil && c.bad:
+				r.Outcome("reload:unloadable-file-rejected")
+			case err != nil:
+				r.Outcome("reload:valid-file-rejected") // previous table stays in force
+				t.Logf("C29: history %s: reload %d of a valid file failed: %v", id, li+1, err)
+			case c.bad:
+				r.Outcome("reload:unloadable-file-accepted") // statement silent on what is in force: not judged
+				t.Logf("C29: history %s: reload %d of an unloadable file reported success", id, li+1)
+				model = nil
+			default:
+				r.Outcome("reload:ok")
+				model = &c29table{name: c.name + "/" + version, ranges: c.ranges}
+			}
+			if model == nil {
+				break
+			}
+			// length-2 histories are judged after every load with both header sets, length-3
+			// histories after the last load with the first one
+			if len(h) == 3 && li < 2 {
+				continue
+			}
+			hs := hdrs
+			if len(h) == 3 {
+				hs = hdrs[:1]
+			}
+			for pi, p := range peers {
+				change := "still-untrusted"
+				switch was, is := before.contains(p.ip), model.contains(p.ip); {
+				case was && is:
+					change = "still-trusted"
+				case was:
+					change = "peer-removed"
+				case is:
+					change = "peer-added"
+				}
+				if err != nil {
+					change += ",failed-reload"
+				}
+				pos := ":after-reload(" + change + "," + c29versionKinds[l.version] + ")"
+				j := &c29judge{reported: reported, r: r, tb: model, p: p, modelTrusted: model.contains(p.ip), peerClaimed: claimedSet.contains(p.ip), baseline: baseline[pi]}
+				for _, hd := range hs {
+					raw := hd.raw()
+					var obs []*c29obs
+					var rerr error
+					if pn, val := vk.Guard(func() { obs, rerr = c29run(e, p, [][]byte{raw}, conds[pi]) }); pn {
+						*panics++
+						r.Outcome("panic:" + vk.PanicSite(val))
+						t.Logf("C29: panic in case %s: %s", id, val)
+						continue
+					}
+					if rerr != nil {
+						t.Fatalf("C29 harness: case %s: %v", id, rerr)
+					}
+					j.judge(id, pos, hd, obs[0], raw)
+				}
+			}
+		}
+	}
+	return len(hists)
 }
